@@ -49,3 +49,30 @@ def extracted_vc_run(repo):
                       effects=SRV_FX, requests=SRV_REQUESTS, objects=["item", "packet"], binds={"FxUnwrap": "packet"})
     return tg.gen_run_module("onl/scheduler/virtual_clock.py: VC.run", spec, [], None, "", "vc_run_fx", SRV_FX_CONS,
                              SRV_REQ_CONS, types="vc_run")
+
+
+# ---- RR.run / WRR.run (C15): coq/Gen/Extracted_rr_run.v, Extracted_wrr_run.v; bridged by coq/Elem/RRScanBridge.v;
+#      obligations Props/C15_BridgeRun.v ------------------------------------------------------------------------------------
+RR_STATE = [("queue_count", "mapZ")]                                   # read only by run(); written by put / send_packet
+RR_ITER = [("self.flows", "flows", ["Z"])]
+RR_IDX_ALIASES = [("store = self.stores.get(_1)", "store", "Z")]
+RR_IDX_READS = [("store", "store", "store_present", "bool")]           # `assert store`: the dict has a Store for the flow
+WRR_ITER = [("self.weights.items()", "weights", ["Z", "Z"]), ("range(_1)", None, ["Z"])]
+
+
+def extracted_rr_run(repo):
+    from vlib import translate_gen as tg
+    spec = tg.GenSpec(os.path.join(repo, "onl", "scheduler", "rr.py"), "RR", "run", "gen_RR_run", reads=SP_READS,
+                      iterables=RR_ITER, idx_aliases=RR_IDX_ALIASES, idx_reads=RR_IDX_READS, requests=SCHED_REQUESTS,
+                      objects=["packet", "store"], spin=True)
+    return tg.gen_run_module("onl/scheduler/rr.py: RR.run", spec, RR_STATE, "rr_run_st", "rr_", "rr_run_fx", [], SCHED_REQ_CONS,
+                             types="rr_run")
+
+
+def extracted_wrr_run(repo):
+    from vlib import translate_gen as tg
+    spec = tg.GenSpec(os.path.join(repo, "onl", "scheduler", "wrr.py"), "WRR", "run", "gen_WRR_run", reads=SP_READS,
+                      iterables=WRR_ITER, idx_aliases=RR_IDX_ALIASES, idx_reads=RR_IDX_READS, requests=SCHED_REQUESTS,
+                      objects=["packet", "store"], spin=True)
+    return tg.gen_run_module("onl/scheduler/wrr.py: WRR.run", spec, RR_STATE, "wrr_run_st", "wr_", "wrr_run_fx", [],
+                             SCHED_REQ_CONS, types="wrr_run")
